@@ -35,6 +35,9 @@ def main():
     patch = os.path.join(mdir, "patch.diff")
     demo = os.path.join(mdir, "demo.rs")
     meta_txt = open(os.path.join(mdir, "meta.txt")).read() if os.path.exists(os.path.join(mdir, "meta.txt")) else ""
+    prev = os.path.join(VERIF, "seeded", name, "meta.json")
+    if not meta_txt.strip() and os.path.exists(prev):
+        meta_txt = json.load(open(prev)).get("what_it_needs", "")
     report = {"property": pid, "name": name, "what_it_needs": meta_txt.strip(), "ran": []}
     # ---- scratch worktree
     if not os.path.isdir(WT):
@@ -96,6 +99,8 @@ def main():
             report["ran"].append("VERIF_REPO=<scratch worktree with the change> ./check %s: exit %d" % (c, rc))
     finally:
         sh("git checkout -- . && git clean -fdq -e target", cwd=WT)
+        # the translators of the checks just run wrote coq/Gen from the scratch tree: regenerate from /repo
+        sh("python3 -c \"import sys; sys.path.insert(0,'tools'); import translate, translate17; translate.regenerate_all(); translate17.regenerate()\"", cwd=VERIF)
     report["caught_by"] = [c for c in caught if caught[c]["exit"] == 1 and caught[c]["violation_lines"]]
     report["checks"] = caught
     out_dir = os.path.join(VERIF, "seeded", name)
